@@ -1,8 +1,8 @@
 (* C31: the hypotheses of the theorems are satisfiable by non-trivial inputs, and the
    conclusions are observable on them. *)
-From Coq Require Import QArith List ZArith NArith.
+From Coq Require Import QArith List ZArith NArith Lia.
 From SE Require Import C31.VisitorModel.
-From SE Require Import C31.SeriesSpec C31.Invert C31.SeriesProofs.
+From SE Require Import C31.SeriesSpec C31.Invert C31.LogAtan C31.Exp C31.SeriesProofs C31.VisitorProofs.
 Local Open Scope Q_scope.
 
 Definition s1 : poly := [(0%Z, 2 # 1); (1%Z, 1 # 3); (3%Z, -5 # 7)].      (* 2 + x/3 - 5x^3/7 *)
@@ -57,4 +57,21 @@ Proof. eexists. eexists. vm_compute. repeat split; reflexivity. Qed.
 (* the chained visitor instance of P_compose.v is not vacuous *)
 Example run_exp_sin :
   exists r, series_top (EPow (EConst name_E) (EF1 TC_Sin (ESym name_x))) 6 = Ok r /\ length r = 5%nat.
+Proof. eexists. vm_compute. split; reflexivity. Qed.
+
+(* the hypothesis DenF of the visitor soundness theorem is satisfiable: the formal exponential
+   series sum x^n/n! is a Taylor series of exp(x), and series(exp(x), x, 9) succeeds *)
+Example den_exp_x : DenF (2 * size (EPow (EConst name_E) (ESym name_x)) + 2)
+                         (EPow (EConst name_E) (ESym name_x)) (fun n => / qfact n).
+Proof.
+  cbn [size Nat.add Nat.mul DenF]. change (is_E (EConst name_E)) with true. cbv match.
+  exists pX. split; [split; reflexivity|]. split; [reflexivity|]. split; [reflexivity|].
+  intros n. unfold pD.
+  assert (E : (pD pX * (fun n => / qfact n))%ps n == / qfact n).
+  { assert (EX : pD pX =p p1) by (intros [|k]; unfold pD, pX, p1, pC, qnat; simpl; ring).
+    rewrite (pmul_proper _ _ EX _ _ (reflexivity _) n). apply pmul_1_l. }
+  unfold pD in E. rewrite E. cbn [qfact]. field.
+  split; [apply qfact_neq0|apply (qnat_neq0 (S n)); lia].
+Qed.
+Example run_exp_x : exists r, series_top (EPow (EConst name_E) (ESym name_x)) 9 = Ok r /\ length r = 9%nat.
 Proof. eexists. vm_compute. split; reflexivity. Qed.
